@@ -5,9 +5,11 @@ package vm
 // Contracts for the virtual machine.
 
 //@ func (*VirtualMachine).Clone
-//@ props C05
+//@ props C05 C12
 //@ commute 1
 //@ commute 2
+//@ requires vm != nil
+//@ ensures[C12.clone.os] err == nil ==> result0 != nil && result0.os == old(vm.os)
 
 //@ func (*VirtualMachine).applyOptions
 //@ props C05
@@ -17,3 +19,92 @@ package vm
 // WithGlobals$1#1 copies entries key by key (closure, not under contract); newVM / basicBuiltins are test helpers
 // (compiler.New sorts the global names before use).
 //@ scan[C05.maploops.vm] C05 maprange vm: (*VirtualMachine).Clone#1 (*VirtualMachine).Clone#2 (*VirtualMachine).applyOptions#1 WithGlobals$WithGlobals$1#1 newVM#1 newVM#2 basicBuiltins#1 basicBuiltins#2
+
+//@ scan[C12.realos.vm] C12 extcalls os.*,os/exec.*,os/user.*,io/ioutil.*,path/filepath.Abs,path/filepath.Glob,path/filepath.Walk,path/filepath.WalkDir,path/filepath.EvalSymlinks,syscall.*,-os.Err*,-os.init,-syscall.init,-os/exec.init,-os/user.init:
+
+// ---- C12: every evaluation context carries the host's OS ----------------------------------------------------
+// The os field is written only when the VM is built (option WithOS, the literal in Clone).
+//@ scan[C12.os.writers] C12 fieldwriters VirtualMachine.os: WithOS Clone
+
+// Frames of the code-loading helpers (assumed; they do not touch the os field: see the scan above).
+//@ func (*VirtualMachine).loadCode
+//@ trusted
+//@ modcomps H_vm_VirtualMachine_loadedCode H_vm_code_ H_sync_ M E_
+//@ func (*VirtualMachine).activateCode
+//@ trusted
+//@ modcomps H_vm_VirtualMachine_fp H_vm_VirtualMachine_ip H_vm_VirtualMachine_activeFrame H_vm_VirtualMachine_activeCode H_vm_VirtualMachine_frames H_vm_frame_ E_
+
+
+// getOS: the context's OS wins, then the VM's; the real operating system (SimpleOS) only when the host gave none.
+//@ func (*VirtualMachine).getOS
+//@ props C12
+//@ requires vm != nil && ctx != nil
+//@ ensures[C12.getos.ctx] hasos(ctx) ==> any(result) == ctxos(ctx)
+//@ ensures[C12.getos.vm] !hasos(ctx) && vm.os != nil ==> result == vm.os
+//@ ensures[C12.getos.fallback] !hasos(ctx) && vm.os == nil ==> typeof(result) == *os.SimpleOS
+//@ ensures[C12.getos.nonnil] result != nil
+
+// initContext: the returned context carries exactly the OS getOS chose (the later WithValue calls use other keys).
+//@ func (*VirtualMachine).initContext
+//@ props C12
+//@ requires vm != nil && ctx != nil
+//@ ensures[C12.initctx.has] result != nil && hasos(result)
+//@ ensures[C12.initctx.ctx] hasos(ctx) ==> ctxos(result) == ctxos(ctx)
+//@ ensures[C12.initctx.vm] !hasos(ctx) && vm.os != nil ==> ctxos(result) == any(vm.os)
+
+// The interpreter loop and the call entry are only ever entered with such a context.
+//@ func (*VirtualMachine).eval
+//@ trusted
+//@ requires[C12.ctx] ctx != nil && hasos(ctx)
+//@ modcomps H_ E_ M G_ C_
+
+// callFunction and importModule hand their own context on to eval (bodies checked for exactly that: every call
+// they make that has a C12 precondition).
+//@ func (*VirtualMachine).callFunction
+//@ props C12
+//@ requires[C12.ctx] ctx != nil && hasos(ctx)
+//@ requires vm != nil
+//@ modcomps H_ E_ M G_ C_
+//@ assumeframe
+
+//@ func (*VirtualMachine).importModule
+//@ props C12
+//@ requires[C12.ctx] ctx != nil && hasos(ctx)
+//@ requires vm != nil
+//@ modcomps H_ E_ M G_ C_
+//@ assumeframe
+
+//@ func (*VirtualMachine).Call
+//@ props C12
+//@ requires vm != nil && ctx != nil
+//@ nocontract start stop
+
+//@ func (*VirtualMachine).cloneCallSync
+//@ props C12
+//@ requires vm != nil && ctx != nil
+
+//@ func (*VirtualMachine).cloneCallAsync
+//@ props C12
+//@ requires vm != nil && ctx != nil
+
+//@ scan[C12.freshctx.vm] C12 extcalls context.Background,context.TODO:
+
+//@ func (*VirtualMachine).runCodeInternal
+//@ props C12
+//@ requires vm != nil && ctx != nil
+//@ modcomps H_ E_ M G_ C_
+//@ assumeframe
+
+// Who enters the interpreter loop / the call entry: every listed function is under contract above, except eval
+// itself (its own calls pass on the ctx it was given: trusted) and initContext, which only stores the method value
+// in the context for builtins (they call it with the context eval gave them: not checked here).
+//@ scan[C12.eval.callers] C12 extcalls github.com/risor-io/risor/vm.(*VirtualMachine).eval: (*VirtualMachine).runCodeInternal (*VirtualMachine).callFunction (*VirtualMachine).importModule
+//@ scan[C12.callfunction.callers] C12 extcalls github.com/risor-io/risor/vm.(*VirtualMachine).callFunction,github.com/risor-io/risor/vm.(*VirtualMachine).importModule,github.com/risor-io/risor/vm.(*VirtualMachine).callObject: (*VirtualMachine).Call (*VirtualMachine).callObject (*VirtualMachine).cloneCallSync (*VirtualMachine).callFunction (*VirtualMachine).eval
+
+// callObject: functions go to callFunction, builtins (object.Callable) are called with the same context.
+//@ func (*VirtualMachine).callObject
+//@ props C12
+//@ requires[C12.ctx] ctx != nil && hasos(ctx)
+//@ requires vm != nil
+//@ modcomps H_ E_ M G_ C_
+//@ assumeframe
